@@ -650,6 +650,8 @@ Exec(d) ==
             /\ IF ~open \/ m.obj \notin r.mons THEN S' = Done(s0, IMS) /\ obs' = hook
                ELSE /\ S' = Done(ResetCkpt(SetRun(s0, m.run, [r EXCEPT !.mons = @ \ {m.obj}, !.monsub = @ \ {m.obj}])), Val(None))
                     /\ obs' = hook \o <<EvDev(m.obj, "clear_sub", "", 0)>>
+       [] c = "locate" ->
+            /\ d = "ok" /\ S' = Done(s0, Val("dict:readback,setpoint")) /\ obs' = hook
        [] c = "stop" ->
             /\ d = "ok" /\ S' = Done(s0, Val(None)) /\ obs' = hook \o <<EvDev(m.obj, "stop", "", 0)>>
        [] c = "_start_suspender" ->
